@@ -11,4 +11,4 @@ Extraction "model.ml"
   h_length h_len h_is_empty h_address_family h_address_bytes h_tlv_bytes h_as_bytes h_to_owned
   addresses_len addresses_is_empty family_to_u16 version_or_command protocol_or_family family_code
   is_incomplete2 is_complete2
-  v2_spec v2_possible walk.
+  v2_spec v2_possible spec_address_bytes spec_tlv_section walk.
